@@ -239,6 +239,29 @@ def discharge(ob, timeout_ms=10000):
 
 
 def _discharge1(ob, timeout_ms=10000):
+    """One obligation; in the thorough tier a sample of the proved ones is re-checked by an independent build of the solver
+    (the Debian z3 4.8.12 binary) on the exported SMT-LIB text of exactly the query that was answered `unsat`."""
+    import os
+    _discharge_core(ob, timeout_ms)
+    rate = int(os.environ.get("PYVC_SECOND_OPINION", "0"))
+    if rate and ob.status == "proved" and ob.kind != "canary" and getattr(ob, "_query", None) is not None \
+            and (__import__('zlib').crc32(ob.name.encode()) % 100) < rate and os.path.exists("/usr/bin/z3"):
+        import subprocess, tempfile
+        with tempfile.NamedTemporaryFile("w", suffix=".smt2", delete=False, dir=os.environ.get("PYVC_TMP", None)) as fh:
+            fh.write(ob._query)
+            path = fh.name
+        try:
+            out = subprocess.run(["/usr/bin/z3", "-T:20", path], capture_output=True, text=True, timeout=40).stdout.split("\n")[0].strip()
+        except Exception as e:
+            out = "error"
+        finally:
+            os.unlink(path)
+        ob.second_opinion = out or "no-answer"
+    ob._query = None
+    return ob
+
+
+def _discharge_core(ob, timeout_ms=10000):
     t0 = time.time()
     r = z3.unknown
     # z3's sequence solver is unstable on identical input: an `unknown` is retried with other random seeds
@@ -285,6 +308,9 @@ def _discharge1(ob, timeout_ms=10000):
                 ob.backend = "z3-" + z3.get_version_string() + f" (spec functions unfolded to depth {fuel})"
                 if r == z3.unsat:
                     ob.status = "proved"
+                    import os as _os2
+                    if _os2.environ.get("PYVC_SECOND_OPINION"):
+                        ob._query = s.to_smt2()
                 elif r == z3.sat:
                     # not provable with the definitions unfolded twice: reported like any failed obligation (the model is
                     # a counterexample candidate only; replay decides whether it is a failing input)
@@ -313,6 +339,9 @@ def _discharge1(ob, timeout_ms=10000):
     ob.backend = "z3-" + z3.get_version_string()
     if r == z3.unsat:
         ob.status = "proved"
+        import os as _os2
+        if _os2.environ.get("PYVC_SECOND_OPINION"):
+            ob._query = s.to_smt2()
     elif r == z3.sat:
         ob.status = "failed"
         try:
